@@ -62,10 +62,13 @@ func init() {
 		x := a.Args[0]
 		// the result is an infix without blank ends; it is the argument itself iff that has no blank ends
 		noEnds := `(re.union (str.to_re "") (re.diff re.allchar (re.union (str.to_re " ") (str.to_re "\u{9}") (str.to_re "\u{a}") (str.to_re "\u{d}") (str.to_re "\u{b}") (str.to_re "\u{c}"))) (re.++ (re.diff re.allchar (re.union (str.to_re " ") (str.to_re "\u{9}") (str.to_re "\u{a}") (str.to_re "\u{d}") (str.to_re "\u{b}") (str.to_re "\u{c}"))) (re.* re.allchar) (re.diff re.allchar (re.union (str.to_re " ") (str.to_re "\u{9}") (str.to_re "\u{a}") (str.to_re "\u{d}") (str.to_re "\u{b}") (str.to_re "\u{c}")))))`
+		ws := `(re.* (re.union (str.to_re " ") (str.to_re "\u{9}") (str.to_re "\u{a}") (str.to_re "\u{d}") (str.to_re "\u{b}") (str.to_re "\u{c}")))`
 		return []*Term{
 			Contains(x, a),
 			InRe(a, noEnds),
 			Eq(Eq(a, x), InRe(x, noEnds)),
+			// ... and the argument is the result between blanks (emitted last: the text of a is declared by then)
+			InRe(x, "(re.++ "+ws+" (str.to_re "+a.SMT(NewDecls())+") "+ws+")"),
 		}
 	}
 	ufAxioms["pathclean"] = func(a *Term) []*Term {
